@@ -14,6 +14,12 @@ def fpx(path, size, text):
     """the stub's 'glyph metric': a value that identifies the (font file, size, text) a measurement was made with"""
     return float(size) * 16 + (sum(ord(c) for c in str(path)[-12:]) % 13) + len(text) / 4.0
 
+from vf.hlib import ModuleState
+_STATE = ModuleState(sw)
+def fresh_module():
+    """module-level state of rtflite.strwidth (e.g. a memo) must not leak from one explored path into the next"""
+    _STATE.reset()
+
 def measure(font, size, unit, text="abc"):
     """real get_string_width with Pillow replaced by fonts whose measured length identifies (file, size, text)"""
     class FakeFont:
@@ -54,6 +60,7 @@ def build(tier, seed):
     unit = pick(UNITS, u)
     n = concrete_int(num, -3, 14)
     size = pick([0.5, 4, 9, 9.5, 12, 48], z)
+    fresh_module()
     st_n, val_n = measure(n, size, unit)
     if not (1 <= n <= 10 and u <= 2):
         return st_n == "ValueError"
@@ -83,6 +90,7 @@ def build(tier, seed):
     a, b = pick([1, 4, 9], f1), pick([1, 4, 9], f2)
     s1, s2 = pick(sizes, z1), pick(sizes, z2)
     unit = "px"
+    fresh_module()
     measure(a, s1, unit, "abc")
     st, val = measure(b, s2, unit, "abc" if same_text else "abcd")
     return st == "ok" and val == expected(NAMES[b - 1], s2, unit, "abc" if same_text else "abcd")
